@@ -93,8 +93,9 @@ Definition allocate_mini_sector (value : N) : M N :=
     (if minifat_start s =? END_OF_CHAIN then
        (if negb (lenN (minifat s) =? 0) then panic 507 else ret tt) ;;
        do sid <- begin_chain IFat;
-       modify (fun s => w_minifat_start s sid) ;;
-       header_write HDR_OFF_FIRST_MINIFAT (le_bytes 4 sid ++ le_bytes 4 1)
+       (* the chain is remembered only once the header records it *)
+       header_write HDR_OFF_FIRST_MINIFAT (le_bytes 4 sid ++ le_bytes 4 1) ;;
+       modify (fun s => w_minifat_start s sid)
      else
        let start := minifat_start s in
        do c <- chain_new start IFat;
@@ -105,8 +106,9 @@ Definition allocate_mini_sector (value : N) : M N :=
        else ret tt) ;;
     do s <- get;
     let new_ms := lenN (minifat s) in
-    set_minifat new_ms value ;;
+    (* the mini stream grows first, then the MiniFAT entry is added *)
     append_mini_sector ;;
+    set_minifat new_ms value ;;
     ret new_ms
   end.
 Definition begin_mini_chain : M N := allocate_mini_sector END_OF_CHAIN.
